@@ -26,6 +26,12 @@ import (
 )
 
 type WarmUpTrafficShapingCalculator struct {
+	// storedTokens and lastFilledTime are accessed atomically: they stand first, where a 64-bit word is 64-bit
+	// aligned on every platform (further down they were not where pointers have 32 bits: the atomic access
+	// panicked, the slot chain recovered and every request passed).
+	storedTokens   int64
+	lastFilledTime uint64
+
 	owner     *TrafficShapingController
 	threshold float64
 	// The rule's threshold counts tokens per statistic interval, so the token bucket below (the
@@ -38,8 +44,6 @@ type WarmUpTrafficShapingCalculator struct {
 	warningToken      uint64
 	maxToken          uint64
 	slope             float64
-	storedTokens      int64
-	lastFilledTime    uint64
 }
 
 func (c *WarmUpTrafficShapingCalculator) BoundOwner() *TrafficShapingController {
